@@ -95,6 +95,8 @@ def mechanism_of(r, case, ix, ms):
 def run(R):
     R.build()
     R.prove('Props/C03.v')
+    from ..flagtie import regen_and_tie_flags
+    regen_and_tie_flags(R)       # the flag methods of the current source, translated, equal Model.always / Model.partial
     rnd = random.Random(R.seed)
     jobs = jobs_for(R.tier, rnd)
     R.extra['grammars'] = len(jobs)
